@@ -439,6 +439,10 @@ class _Desync(Exception):
     pass
 
 
+class _ScopeAbort(Exception):
+    """raised on purpose inside a with-block and handled by the caller: the scope is left through an exception"""
+
+
 def _inner_arrays(v):
     if isinstance(v, np.ndarray) and v.dtype == object:
         return [x for x in v.flat if isinstance(x, np.ndarray)]
@@ -568,6 +572,68 @@ def do_grid(ses, t):
     ses.emit(f"grid {ses.ids[id(t)]} [{tr[0]},{tr[1]},{tr[2]}]", "ok " + ses.obj_line(t))
 
 
+def do_api_ndens(ses, c):
+    """`c.setNumberDensity(nuc, v)` / `c.updateNumberDensities({..})`: the dict held by `numberDensities` is updated IN
+    PLACE and the code then marks collection and definition as assigned; replayed to the model as the observed
+    function of the collection's values (setC)"""
+    rng = ses.rng
+    if c.p.readOnly or not getattr(c.p, "numberDensities", None):
+        return False
+    pd = c.p.paramDefs["numberDensities"]
+    nucs = sorted(c.p.numberDensities)
+    flags_before = {id(q): q.assigned for q in ses.pdefs(c)}
+    cache_before = dict(c.cached)
+    try:
+        if rng.random() < 0.5:
+            nuc = rng.choice(nucs)
+            c.setNumberDensity(nuc, c.p.numberDensities[nuc] * rng.choice([0.5, 2.0, 1.0 + 1e-7]) + rng.choice([0.0, 1e-9]))
+        else:
+            pick = rng.sample(nucs, min(len(nucs), 2))
+            c.updateNumberDensities({n: c.p.numberDensities[n] * rng.choice([0.25, 3.0]) for n in pick})
+    except Exception:
+        raise _Desync()
+    if {k: v for k, v in c.cached.items() if str(k).startswith("k")} != {k: v for k, v in cache_before.items() if str(k).startswith("k")}:
+        raise _Desync()      # the API also cleared the probe cache entries: outside this replay
+    ses.log.append(f"set {ses.ids[id(c)]} numberDensities")
+    row = ",".join(str(ses.code(ses.val(c, q))) for q in ses.pdefs(c))
+    marked = ",".join(str(ses.did(q)) for q in ses.pdefs(c) if q is not pd and q.assigned != flags_before[id(q)])
+    ses.emit(f"setrow {ses.ids[id(c)]} {ses.did(pd)} [{row}] [{marked}]", "ok " + ses.obj_line(c) + f" d{pd.assigned}")
+    ses.ctx.count("number densities changed through the in-place API path")
+    return True
+
+
+def directed_kept_ndens(ses, allobjs):
+    """the keep-set names `numberDensities`; inside the scope the component's densities change ONLY through the in-place
+    API path (possibly inside a nested inner scope that keeps them too); other objects get ordinary assignments"""
+    rng = ses.rng
+    comps = [o for o in allobjs if hasattr(o, "material") and not o.p.readOnly and getattr(o.p, "numberDensities", None)]
+    if not comps:
+        return
+    c = rng.choice(comps)
+    pd = c.p.paramDefs["numberDensities"]
+    chain, x = [], c
+    while x is not None and any(x is o for o in allobjs):
+        chain.append(x); x = x.parent
+    others = [o for o in allobjs if o is not c]
+    nested = rng.random() < 0.5
+
+    def inner_body():
+        do_api_ndens(ses, c)
+        for _ in range(rng.randint(0, 2)):
+            do_set(ses, rng.choice(others))
+
+    def outer_body():
+        if nested:
+            if rng.random() < 0.5:
+                do_api_ndens(ses, c)
+            scope(ses, allobjs, 2, root=rng.choice(chain), keep=[pd], script=inner_body)
+        else:
+            inner_body()
+
+    scope(ses, allobjs, 1, root=rng.choice(chain), keep=[pd], script=outer_body)
+    ses.ctx.count("directed: kept numberDensities changed only through the in-place API path")
+
+
 def _emit_assign(ses, t, name, compare=True):
     pd = t.p.paramDefs[name]
     ses.log.append(f"set {ses.ids[id(t)]} {name}")
@@ -670,7 +736,8 @@ def scope(ses, allobjs, depth, root=None, keep=None, script=None):
     keepnames_by_obj = {id(o): {pd.name for pd in keep if any(pd is q for q in o.p.paramDefs)} for o in objs}
     entry = snapshot(ses, allobjs)
     log0 = len(ses.log)
-    ses.log.append(f"enter {ses.ids[id(root)]} keep={len(keep)} depth={depth}")
+    aborted = rng.random() < 0.2     # the with-block ends with an exception that the caller handles
+    ses.log.append(f"enter {ses.ids[id(root)]} keep={len(keep)} depth={depth}" + (" (left by exception)" if aborted else ""))
     phase = ["enter"]
     try:
         with root.retainState(keep):
@@ -689,6 +756,13 @@ def scope(ses, allobjs, depth, root=None, keep=None, script=None):
                 ses.keepstack.pop()
             inner = snapshot(ses, allobjs)
             phase[0] = "exit"
+            if aborted:
+                raise _ScopeAbort()
+        if aborted:
+            ctx.fail("retain-scope-swallows-exception", "an exception raised inside the with-block reaches the caller",
+                     ses.case() | {"object": ses.ids[id(root)], "depth": depth})
+    except _ScopeAbort:
+        ctx.count(f"scope left through an exception (depth {depth})")
     except _Desync:
         raise
     except Exception as e:
@@ -1008,6 +1082,7 @@ def _api_stream(ctx, seq_seed):
         sub = {id(o) for o in [root] + list(root.iterChildren(deep=True))}
         entry = snapshot(ses, objs)
         phase = ["enter"]
+        aborted = rng.random() < 0.2
         try:
             with root.retainState():
                 phase[0] = "body"
@@ -1020,6 +1095,13 @@ def _api_stream(ctx, seq_seed):
                         mutate()
                 inner = snapshot(ses, objs)
                 phase[0] = "exit"
+                if aborted:
+                    raise _ScopeAbort()
+            if aborted:
+                ctx.fail("retain-scope-swallows-exception", "an exception raised inside the with-block reaches the caller",
+                         {"seq_seed": seq_seed, "stream": "api", "depth": depth})
+        except _ScopeAbort:
+            ctx.count(f"api scope left through an exception (depth {depth})")
         except _Desync:
             raise
         except Exception as e:
@@ -1048,10 +1130,58 @@ def _api_stream(ctx, seq_seed):
                                                               "type": type(o).__name__, "params": bad[:6], "depth": depth})
         ctx.count(f"api scope depth {depth}")
 
+    def kept_ndens():
+        """keep-set = {numberDensities}; the densities change only through setNumberDensity / updateNumberDensities"""
+        cs = [c for c in comps if getattr(c.p, "numberDensities", None)]
+        if not cs:
+            return
+        c = rng.choice(cs)
+        pd = c.p.paramDefs["numberDensities"]
+        chain, x = [], c
+        while x is not None and any(x is o for o in objs):
+            chain.append(x); x = x.parent
+        nuc = rng.choice(sorted(c.p.numberDensities))
+        entry = snapshot(ses, objs)
+        inner_scope = rng.random() < 0.5
+        left_by_exception = rng.random() < 0.2
+        try:
+            with rng.choice(chain).retainState([pd]):
+                if inner_scope:
+                    with rng.choice(chain).retainState([pd]):
+                        c.setNumberDensity(nuc, c.getNumberDensity(nuc) * 2.0 + 1e-4)
+                    mid = canon(c.p.numberDensities)
+                    if rng.random() < 0.5:
+                        c.updateNumberDensities({nuc: c.getNumberDensity(nuc) * 0.5})
+                else:
+                    c.updateNumberDensities({nuc: c.getNumberDensity(nuc) * 3.0 + 1e-5})
+                    mid = None
+                rng.choice([o for o in objs if o is not c]).p.flags = rng.choice(objs).p.flags
+                want = canon(c.p.numberDensities)
+                inner = snapshot(ses, objs)
+                if left_by_exception:
+                    raise _ScopeAbort()
+        except _ScopeAbort:
+            pass
+        except Exception as e:   # the density API refusing (geometry made inconsistent by earlier mutations) is not a retain-state matter
+            ctx.count(f"api kept-ndens: API raised {type(e).__name__}")
+            return
+        case = {"seq_seed": seq_seed, "stream": "api", "object": ses.ids[id(c)], "type": type(c).__name__, "nuclide": nuc,
+                "keep": ["numberDensities"], "inner_scope": inner_scope, "left_by_exception": left_by_exception}
+        if mid is not None and entry[id(c)]["numberDensities"] == mid:
+            ctx.fail("retain-kept-number-densities-lost", "a kept numberDensities changed through setNumberDensity inside an "
+                     "inner scope holds the new densities when that inner scope ends", case | {"at": "inner exit"})
+        if canon(c.p.numberDensities) != want:
+            ctx.fail("retain-kept-number-densities-lost", "a kept numberDensities changed only through setNumberDensity / "
+                     "updateNumberDensities holds the in-scope densities after the scope", case,
+                     observed=canon(c.p.numberDensities)[:120], expected=want[:120])
+        ctx.count("api: kept numberDensities via the in-place path")
+
     with common.quiet():
         try:
             for _ in range(4):
                 nest(1)
+            for _ in range(2):
+                kept_ndens()
         except _Desync:
             ctx.count("api session ended early")
     ctx.case(("api", seq_seed))
@@ -1082,6 +1212,8 @@ def _run_session(ctx, seq_seed, batch, nscopes):
                     directed_nested_keep(ses, allobjs)
                 elif k < 0.40:
                     directed_nested_grid(ses, allobjs)
+                elif k < 0.50:
+                    directed_kept_ndens(ses, allobjs)
                 elif k < 0.7:
                     scope(ses, allobjs, 1)
                 elif k < 0.85:
